@@ -171,15 +171,15 @@ func runC09Concurrent(ctx *core.Ctx, out *core.Out) {
 	case <-a.Gated:
 		gatedSeen = true
 		time.Sleep(time.Duration(cs.HoldUs) * time.Microsecond)
-	case <-time.After(20 * time.Second):
+	case <-time.After(10 * time.Second):
 	}
 	release()
 	done := make(chan struct{})
 	go func() { wgW.Wait(); close(done) }()
 	select {
 	case <-done:
-	case <-time.After(90 * time.Second):
-		out.Violate("C09:hang-after-close", "write-side goroutines did not finish 90 s after the close frame was released", map[string]interface{}{"case": cs})
+	case <-time.After(45 * time.Second):
+		out.Violate("C09:hang-after-close", "write-side goroutines did not finish 45 s after the close frame was released", map[string]interface{}{"case": cs})
 		a.Close()
 		b.Close()
 		return
